@@ -1233,6 +1233,13 @@ class Session:
             finally:
                 tm.abort()
                 c.close()
+            if DBNAMES[0] in c.connections:
+                # it reached d0 after all (through constructor arguments of a ghost it made): attaching this
+                # group to a d0 primary would let its d0 connection replace the primary's own (the update() in
+                # get_connection lets the newcomer's entries win — known, not recorded): drop it
+                for db in dbs:
+                    db.pool.clear()
+                return False
             return True
         return False
 
